@@ -22,7 +22,10 @@ TRUSTED_BASE = [
     'Lean 4.33.0 kernel (thorough tier: re-checked with leanchecker)',
     'axioms allowed in property theorems: propext, Classical.choice, Quot.sound (audited with #print axioms on every run)',
     'hand-written Lean model of the Python code, tied to /repo by the correspondence check of this run',
-    'translator-lite harness/extract_consts.py (ast) for the generated constants in lean/Mrpro/Gen',
+    'translator-lite harness/extract_consts.py (ast) for the generated constants in lean/Mrpro/Gen/Consts.lean',
+    'translator harness/translate_src.py + harness/py2lean.py (ast -> Lean Int terms, Python // and % as Int.fdiv / Int.fmod) '
+    'for the integer code regenerated into lean/Mrpro/Gen/Src.lean; a site reported as "fallback" in translated_sites is '
+    'tied by the correspondence check only',
     'harness (Python) transmitting cases faithfully; torch / third-party kernels are parameters of the model',
 ]
 
@@ -260,6 +263,7 @@ def main(argv=None):
             + (' && lake env leanchecker Mrpro.Props.' + prop if tier == 'thorough' else ''),
             'trusted_base': TRUSTED_BASE + list(getattr(mod, 'TRUSTED_EXTRA', [])),
             'theorems': {t: axioms.get(t) for t in thms},
+            'translated_sites': lean.translated_sites(),
             'broken_obligations': broken_thms,
             'leanchecker_exit': leanchecker,
             'build_seconds': round(build_s, 1),
